@@ -32,6 +32,10 @@ type detGen struct {
 	ts      int64
 	expSecs []int64
 	varlen  bool // variable-length / binary / empty sub-keys (pebble only: mem radix finding)
+	hllMix  bool // DEL / SET on HyperLogLog keys
+	lastDel2 string
+	bigUsed  bool  // at most one oversized value per log
+	hot      []int // entry indexes after which a restart cut is most revealing (a command that is expected to fail in its handler after buffering)
 	n       int
 }
 
@@ -75,6 +79,8 @@ func (g *detGen) dur() string {
 	}
 	return d
 }
+
+var detBigValue = strings.Repeat("B", 8*1024*1024+1)
 
 var detMembers = []string{"m1", "m2", "m3", "m4", "m5"}
 var detFields = []string{"f1", "f2", "f3", "f4"}
@@ -146,6 +152,12 @@ func (g *detGen) cmd() []string {
 			return []string{"persist", g.k("ka", "kb", "ia")}
 		}
 	case f < 28: // multi-key write (merge command) and setifeq
+		if !g.bigUsed && g.rng.Intn(6) == 0 {
+			// a later pair with a value over the 8 MiB limit: accepted at propose, rejected in the
+			// apply handler after the earlier pair was buffered
+			g.bigUsed = true
+			return []string{"plset", g.k("ka"), g.val(), g.k("kc"), detBigValue}
+		}
 		if g.rng.Intn(2) == 0 {
 			return []string{"plset", g.k("ka"), g.val(), g.k("kc"), g.val()}
 		}
@@ -162,8 +174,17 @@ func (g *detGen) cmd() []string {
 		default:
 			return []string{"bpersist", b}
 		}
-	case f < 38: // hyperloglog
-		return []string{"pfadd", detHLLTable + ":" + g.pick("pa", "pb"), g.val(), g.val()}
+	case f < 38: // hyperloglog (a string type in Redis: DEL and SET on the same key are legitimate)
+		hk := detHLLTable + ":" + g.pick("pa", "pb")
+		if g.hllMix {
+			switch g.rng.Intn(8) {
+			case 0:
+				return []string{"del", hk}
+			case 1:
+				return []string{"set", hk, g.val()}
+			}
+		}
+		return []string{"pfadd", hk, g.val(), g.val()}
 	case f < 46: // json
 		j := g.k("ja", "jb")
 		switch g.rng.Intn(6) {
@@ -300,6 +321,19 @@ func (g *detGen) failingBatchable() []string {
 func (g *detGen) denseValid() []string {
 	kv := func() string { return g.k("ka", "kb", "kc", "kd", "ke") }
 	h := func() string { return g.k("ha", "hb", "ka") }
+	if g.lastDel2 != "" {
+		// a batchable write on a NON-first key of the preceding multi-key DEL
+		k := g.lastDel2
+		g.lastDel2 = ""
+		switch g.rng.Intn(4) {
+		case 0:
+			return []string{"set", k, g.val(), "nx"}
+		case 1:
+			return []string{"del", k}
+		case 2:
+			return []string{"setex", k, "100000", g.val()}
+		}
+	}
 	switch r := g.rng.Intn(20); {
 	case r < 6:
 		return []string{"set", kv(), g.val()}
@@ -310,7 +344,12 @@ func (g *detGen) denseValid() []string {
 	case r < 15:
 		return []string{"hmset", h(), g.sub(detFields...), g.val(), g.sub(detFields...), g.val()}
 	case r < 16:
-		return []string{"del", kv(), kv()}
+		a, b := kv(), kv()
+		for b == a {
+			b = kv()
+		}
+		g.lastDel2 = b
+		return []string{"del", a, b}
 	case r < 17:
 		return []string{"incr", g.k("ia", "ka")}
 	case r < 18:
@@ -367,6 +406,19 @@ func (g *detGen) logKind(n int, kind string, failing bool) []detEntry {
 				e.Cmds = append(e.Cmds, g.cmd())
 			}
 		}
+		if kind == "general" && !g.bigUsed && n > 20 && i == n/2 {
+			// every general log has exactly one multi-pair write whose later value is over the
+			// 8 MiB limit (accepted at propose, rejected by the apply handler after buffering)
+			g.bigUsed = true
+			e.Cmds = [][]string{{"plset", g.k("ka"), g.val(), g.k("kc"), detBigValue}}
+		}
+		for _, c := range e.Cmds {
+			for _, a := range c {
+				if len(a) > 8*1024*1024 {
+					g.hot = append(g.hot, len(out)+1)
+				}
+			}
+		}
 		out = append(out, e)
 	}
 	return out
@@ -403,7 +455,22 @@ func detCutsRandom(rng *rand.Rand, n int) []int {
 	return append(c, n)
 }
 
-func detConds(rng *rand.Rand, n int, engines []string, full bool) []detCond {
+func detWithCut(cuts []int, h int) []int {
+	out := []int{}
+	done := false
+	for _, c := range cuts {
+		if !done && c >= h {
+			if c != h {
+				out = append(out, h)
+			}
+			done = true
+		}
+		out = append(out, c)
+	}
+	return out
+}
+
+func detConds(rng *rand.Rand, n int, engines []string, full bool, hot []int) []detCond {
 	var cs []detCond
 	add := func(c detCond) {
 		c.Name = fmt.Sprintf("%s/replay=%v/cuts=%s/restart=%s@%d+%d", c.Eng, c.Replay, detCutName(c.Cuts, n), c.RKind, c.Restart, c.Dirty)
@@ -435,6 +502,17 @@ func detConds(rng *rand.Rand, n int, engines []string, full bool) []detCond {
 		if eng == "pebble" && (full || ei == 0) {
 			cuts := detCutsRandom(rng, n)
 			add(detCond{Eng: eng, Cuts: cuts, Restart: cuts[rng.Intn(len(cuts))], RKind: "reopen", Replay: true})
+		}
+		// a restart exactly after an entry that is expected to fail after buffering: what it left
+		// in the store's default write batch is lost here and committed by the next write elsewhere
+		for _, h := range hot {
+			if h <= 0 || h >= n {
+				continue
+			}
+			add(detCond{Eng: eng, Cuts: detWithCut(detCutsRandom(rng, n), h), Restart: h, RKind: "restore", Replay: true})
+			if eng == "pebble" {
+				add(detCond{Eng: eng, Cuts: detWithCut(detCutsEvery(n, 3), h), Restart: h, RKind: "reopen", Replay: true})
+			}
 		}
 	}
 	return cs
@@ -606,7 +684,14 @@ func detDescribe(log []detEntry, base int64) []string {
 	var out []string
 	for i, e := range log {
 		for ci, c := range e.Cmds {
-			out = append(out, fmt.Sprintf("%d.%d @%+dns %q", i, ci, e.Ts-base, c))
+			sc := make([]string, len(c))
+			for k, a := range c {
+				if len(a) > 40 {
+					a = fmt.Sprintf("%s...(%d bytes)", a[:12], len(a))
+				}
+				sc[k] = a
+			}
+			out = append(out, fmt.Sprintf("%d.%d @%+dns %q", i, ci, e.Ts-base, sc))
 		}
 	}
 	return out
@@ -692,6 +777,7 @@ func detsim(args []string) error {
 	straddleSkip := fs.String("straddle-skip", "", "comma separated command names left out of straddle probes (recorded findings)")
 	varlenEvery := fs.Int("varlen", 3, "every n-th log uses variable-length/binary sub-keys and runs on pebble only (0: never)")
 	denseEvery := fs.Int("dense", 3, "every n-th log is batch-dense (0: never)")
+	hllMix := fs.Bool("hllmix", false, "DEL and SET on HyperLogLog keys (exploration of the HLL write cache)")
 	failing := fs.Bool("failing", false, "batch-dense logs contain batchable commands that fail in the apply handler (isolate stage)")
 	fs.Parse(args)
 	detSilence()
@@ -713,7 +799,7 @@ func detsim(args []string) error {
 	for li := 0; li < *nlogs; li++ {
 		r.tw = tws[li%len(tws)]
 		base := time.Now().Add(-2*time.Hour).UnixNano() + int64(li)*int64(10*time.Second)
-		g := &detGen{rng: rng, ts: base}
+		g := &detGen{rng: rng, ts: base, hllMix: *hllMix}
 		g.varlen = *varlenEvery > 0 && li%*varlenEvery == *varlenEvery-1
 		kind := "general"
 		if *denseEvery > 0 && li%*denseEvery == 0 {
@@ -737,7 +823,7 @@ func detsim(args []string) error {
 			}
 			r.tw.Emit(detLogEvent(li, kind, policy, log))
 			stats["logs"]++
-			for _, c := range detConds(rng, len(log), le, *full) {
+			for _, c := range detConds(rng, len(log), le, *full, g.hot) {
 				if err := r.run(log, policy, c, true, nil); err != nil {
 					fmt.Fprintln(os.Stderr, "run skipped:", c.Name, err)
 					skipped++
